@@ -116,6 +116,7 @@ CONF = {
   "rule": "stateless enumeration of every event sequence up to the depth over {submit A, submit B, submit C, resubmit the latest, re-apply-old, timer expiry with reload ok, timer expiry with reload failing} on the real debouncer goroutine (hand-shake driver: one offered event at a time; goroutine quiescence read from runtime.Stack) with the real reload action writing a scratch file and a scripted reload signal; every prefix is closed with succeeding reloads; reference model (latest, armed); states = distinct sequences, transitions = events delivered",
   "parts": [{"name": "frr", "pkg": "internal/bgp/frr", "test": "TestVerif_C19", "shards": {"quick": 16, "thorough": 16}, "budget_s": {"quick": 100, "thorough": 1500}},
             {"name": "frrk8s", "pkg": "internal/k8s/controllers", "test": "TestVerif_C19k", "shards": {"quick": 16, "thorough": 16}, "budget_s": {"quick": 60, "thorough": 900}},
+            {"name": "manager", "pkg": "internal/bgp/frr", "test": "TestVerif_C19mgr", "shards": {"quick": 16, "thorough": 16}, "budget_s": {"quick": 60, "thorough": 900}},
             {"name": "submitters", "pkg": "internal/bgp/frr", "test": "TestVerif_C19conc", "shards": {"quick": 8, "thorough": 16}, "budget_s": {"quick": 60, "thorough": 600}, "gomaxprocs": 1,
              "rewrites": {"sync": ["internal/bgp/frr/frr.go"], "chan": ["internal/bgp/frr/frr.go"], "map": ["internal/bgp/frr/frr.go"]}}],
   "blank_tests": ["internal/bgp/frr"],
